@@ -33,10 +33,10 @@ MENUS = [
 CONV_MENUS = MENUS + [["listener1"], []]  # convention names may live on the late listener only, or nowhere
 
 
-def base_am():
+def base_am(with_flag):
     return {
         "states": [{"id": "a", "initial": True}, {"id": "b"}, {"id": "c"}],
-        "transitions": [
+        "transitions": ([{"src": "a", "tgt": "a", "events": ["go"], "cond": ["flag"], "internal": True}] if with_flag else []) + [
             {"src": "a", "tgt": "b", "events": ["go"], "on": ["act"]},
             {"src": "b", "tgt": "c", "events": ["go"], "cond": ["ok1"]},
             {"src": "b", "tgt": "b", "events": ["go"], "internal": True},
@@ -51,10 +51,15 @@ def tasks(tier):
     out = []
     for late_kind in ("sync", "async-late"):
         for g in range(len(MENUS)):
-            for a in range(len(MENUS) if not quick else 4):
-                if quick and late_kind == "async-late" and (g not in (0, 3) or a not in (0, 3)):
+            for a in range(len(MENUS)):
+                if quick and a not in (0, 3):
                     continue
-                out.append({"guard_menu": g, "act_menu": a, "late_kind": late_kind, "quick": quick})
+                if quick and late_kind == "async-late" and g not in (0, 3):
+                    continue
+                out.append({"kind": "names", "guard_menu": g, "act_menu": a, "late_kind": late_kind, "quick": quick, "equal": late_kind == "sync" and (g + a) % 2 == 1})
+    for fm in range(4):
+        for equal in (False, True):
+            out.append({"kind": "attr", "guard_menu": 0, "act_menu": 0, "late_kind": "sync", "quick": quick, "equal": equal, "flag_menu": fm})
     return out
 
 
@@ -63,14 +68,14 @@ BUDGET = {
     "thorough": {"max_secs": 3600, "task_secs": 3000, "path_secs": 60},
 }
 BOUNDS = {
-    "quick": "3-state ring driven by 3 consecutive `go` events; the guard name `ok1` and the inline action `act` provided by each of 7 (4 for act) provider sets "
+    "quick": "3-state ring driven by 3 consecutive `go` events; the guard name `ok1` and the inline action `act` provided by each of 7 (2 for act) provider sets "
     "over {machine, model, constructor listener, late listener}; `on_enter_state` and `after_go` provided by 3 sets (machine; model + both listeners; late listener only); the "
     "late listener attached before event 0, 1 or 2, once, twice in one call, or again before the next event; a second instance of the class with its own "
-    "listener must stay silent; guard values symbolic per provider; variant in which the late listener's methods are coroutine functions on an otherwise sync machine.",
+    "listener must stay silent; guard values symbolic per provider; a guard given as a plain data attribute (None at attachment, re-assigned before each event) on model / listeners; a variant whose listeners all compare equal; variant in which the late listener's methods are coroutine functions on an otherwise sync machine.",
     "thorough": "all 7x7 guard/action provider sets.",
 }
-OUTSIDE = "callables and properties passed by reference (late listeners resolve names only, documented); more than one late listener; listeners that compare equal (identity is assumed)"
-OBLIGATIONS = ["late-listener-called", "guard-conjunction-blocked", "guard-on-late-listener", "reattached", "second-instance-silent", "model-provider"]
+OUTSIDE = "callables and properties passed by reference (late listeners resolve names only, documented); more than one late listener"
+OBLIGATIONS = ["attribute-guard-blocked", "attribute-guard-passed", "late-listener-called", "guard-conjunction-blocked", "guard-on-late-listener", "reattached", "second-instance-silent", "model-provider"]
 ASSUMPTIONS = [
     "every provider of a name is called once per phase; the value of a guard name provided by several objects is the conjunction of their values (cond wants it truthy, unless wants it falsy); any evaluation order and short-circuit is accepted",
     "a late listener takes part from the first event after add_listener returns",
@@ -81,10 +86,16 @@ def run(ctx, params):
     from statemachine.exceptions import InvalidDefinition
 
     quick = params["quick"]
-    am = base_am()
+    with_flag = params["kind"] == "attr"
+    am = base_am(with_flag)
     conv_pool = CONV_MENUS if not quick else [CONV_MENUS[i] for i in (0, 4, 7)]
-    enter_prov = conv_pool[ctx.choose(len(conv_pool), "enter_menu")]
-    after_prov = conv_pool[ctx.choose(len(conv_pool), "after_menu")] if not quick else conv_pool[(conv_pool.index(enter_prov) + 1) % len(conv_pool)]
+    enter_prov = conv_pool[ctx.choose(len(conv_pool), "enter_menu")] if not with_flag else []
+    if with_flag:
+        after_prov = []
+    elif quick:
+        after_prov = conv_pool[(conv_pool.index(enter_prov) + 1) % len(conv_pool)]
+    else:
+        after_prov = conv_pool[ctx.choose(len(conv_pool), "after_menu")]
     feats = {"ok1": MENUS[params["guard_menu"]], "act": MENUS[params["act_menu"]], "on_enter_state": enter_prov, "after_go": after_prov}
     methods = {"machine": [], "model": [], "listener0": [], "listener1": [], "listener2": ["on_enter_state", "after_go", "act", "ok1"]}
     for name, provs in feats.items():
@@ -98,13 +109,24 @@ def run(ctx, params):
     else:
         attach_at = ctx.choose(3, "attach_at")
         attach_mode = ["once", "twice-in-one-call", "again-later"][ctx.choose(3, "attach_mode")]
+    # `flag` is a plain data attribute (None when the provider is attached, assigned before every event)
+    flag_provs = [["model"], ["listener0"], ["listener0", "listener1"], ["model", "listener1"]][params["flag_menu"]] if with_flag else []
     with ctx.notracing():
         box = [None]
         r = render(am, box, class_name="C12M")
         script = Script(ctx, am, budget=0, values="int")
         box[0] = script
+        if params.get("equal"):
+            for c in r["listener_classes"]:
+                c.__eq__ = lambda self, other: type(other).__name__.startswith("Listener")
+                c.__hash__ = lambda self: 7
         model = r["model_cls"]()
         l0, l1, l2 = (c() for c in r["listener_classes"])
+        objs = {"model": model, "listener0": l0, "listener1": l1}
+        for p in flag_provs:
+            objs[p].flag = None
+        if with_flag:
+            l2.flag = None
         script.muted = True
     tag = f"late={params['late_kind']}"
     try:
@@ -121,9 +143,13 @@ def run(ctx, params):
     with ctx.notracing():
         eff = copy.deepcopy(am)
         eff["methods"] = {p: list(v) for p, v in methods.items() if p in ("machine", "model", "listener0")}
+        for p in flag_provs:
+            if p != "listener1":
+                eff["methods"][p].append("flag")
         eff2 = copy.deepcopy(am)
         eff2["methods"] = {p: list(v) for p, v in methods.items() if p in ("machine", "model")}
-        eff2["methods"]["listener2"] = list(methods["listener2"])
+        eff2["methods"]["listener2"] = list(methods["listener2"]) + (["flag"] if with_flag else [])
+
     is_async_engine = False
     for k in range(3):
         if k == attach_at or (attach_mode == "again-later" and k == attach_at + 1):
@@ -136,10 +162,18 @@ def run(ctx, params):
             if attach_mode == "twice-in-one-call":
                 ctx.cover("reattached")
             attached = True
-            eff["methods"]["listener1"] = list(methods["listener1"])
+            eff["methods"]["listener1"] = list(methods["listener1"]) + (["flag"] if "listener1" in flag_provs else [])
         del script.log[:]
+        forced = {}
+        if cur == "a" and with_flag:
+            for p in flag_provs:
+                v = ctx.sym_bool(f"flag.{p}@{k}")
+                v = True if v else False
+                objs[p].flag = v
+                forced[(p, "flag")] = v
         out = outcome_of(lambda: sm.send("go"), sm)
         acc = Acceptor(eff, script.log, rtc=True, is_async=is_async_engine)
+        acc.forced_reads = forced
         shape = "late-async-listener-on-sync-machine" if late_async and attached and methods["listener1"] else "sync"
         try:
             new = accept_or_mismatch(acc, cur, ["go"], out, f"{shape}", script.log)
@@ -151,7 +185,8 @@ def run(ctx, params):
                     alt_am = copy.deepcopy(eff)
                     alt_am["methods"]["listener1"] = [n for n in methods["listener1"] if n == "ok1"]
                 alt = Acceptor(alt_am, script.log, rtc=True, is_async=False)
-                alt.forced_reads = {("listener1", "ok1"): True}  # a coroutine object is truthy
+                alt.forced_reads = dict(forced)
+                alt.forced_reads[("listener1", "ok1")] = True  # a coroutine object is truthy
                 alt.unless_anyfalsy_group = {p for p in feats["ok1"] if p != "listener1"}
                 try:
                     alt.call(cur, ["go"], ("ret", ANY) if out[0] == "ret" else out)  # un-awaited coroutines may sit in the result
@@ -167,6 +202,7 @@ def run(ctx, params):
             if cur == "c" and attached and "listener1" in feats["ok1"]:
                 # does the log fit "the late listener's value of an `unless` name is judged on its own"?
                 alt = Acceptor(eff, script.log, rtc=True, is_async=is_async_engine)
+                alt.forced_reads = dict(forced)
                 alt.unless_anyfalsy_group = set(ctor_group)
                 try:
                     alt.call(cur, ["go"], out)
@@ -192,8 +228,10 @@ def run(ctx, params):
                         ctx.cover("guard-on-late-listener")
                 if rec[2] == "model":
                     ctx.cover("model-provider")
-        if any(ti in (2, 4) for _e, ti, _s, _t in acc.fired) and len(feats["ok1"]) > 1:
+        if any(ti in ((3, 5) if with_flag else (2, 4)) for _e, ti, _s, _t in acc.fired) and len(feats["ok1"]) > 1:
             ctx.cover("guard-conjunction-blocked")
+        if cur == "a" and with_flag:
+            ctx.cover("attribute-guard-passed" if any(ti == 0 for _e, ti, _s, _t in acc.fired) else "attribute-guard-blocked")
         lost = never_started(script)
         if lost:
             if all(p == "listener1" for p, _n in lost) and late_async:
@@ -206,5 +244,6 @@ def run(ctx, params):
     script.sm = other
     out = outcome_of(lambda: other.send("go"), other)
     acc = Acceptor(eff2, script.log, rtc=True, is_async=False)
+    acc.forced_reads = {("listener2", "flag"): False}
     accept_or_mismatch(acc, "a", ["go"], out, "second-instance", script.log)
     ctx.note({"features": feats, "attach_at": attach_at, "mode": attach_mode, "final": cur})
